@@ -282,6 +282,9 @@ var c10RawPart = hx.NewPart("C10", "raw", func(t *rapid.T) c10Raw {
 
 func evalC10(c c10Case, rec *hx.Rec) error {
 	rec.Sample(c)
+	if c.Seed%4 == 1 {
+		runNoise(c.Seed|1, 2, false)
+	}
 	return evalC10Bytes(c, c.bytesOf(), rec)
 }
 
@@ -303,6 +306,16 @@ func evalC10Bytes(c c10Case, b []byte, rec *hx.Rec) error {
 	wantOK := len(reasons) == 0
 	var mp multiproof.MultiProof
 	var ip ipa.IPAProof
+	if c.Seed%2 == 1 { // the receiver already holds another, full-width proof (a reused object)
+		c10Pool()
+		other := c10Case{Kind: c.Kind, Base: "valid", Seed: 99, Field: -1}.bytesOf()
+		if c.Kind == "multi" {
+			_ = mp.Read(bytes.NewReader(other))
+		} else {
+			_ = ip.Read(bytes.NewReader(other))
+		}
+		rec.Label("reused_receiver")
+	}
 	var rerr error
 	cr := &countingReader{r: c.reader(b)}
 	perr := hx.Try(func() {
@@ -400,6 +413,21 @@ func evalC10Bytes(c c10Case, b []byte, rec *hx.Rec) error {
 			return fmt.Errorf("%s.Write returned nil although the writer failed at its Write call #%d", c.Kind, fw.failAt)
 		}
 		rec.Label("write_fault")
+		// a later Write to a healthy writer must not be affected by the failed one
+		var out2 bytes.Buffer
+		var werr2 error
+		if perr := hx.Try(func() {
+			if c.Kind == "multi" {
+				werr2 = mp.Write(&out2)
+			} else {
+				werr2 = ip.Write(&out2)
+			}
+		}); perr != nil || werr2 != nil {
+			return fmt.Errorf("Write after a failed Write: %v %v", perr, werr2)
+		}
+		if !bytes.Equal(out2.Bytes(), b[:need]) {
+			return fmt.Errorf("%s.Write after a failed Write produced %d bytes that differ from the proof's encoding (first difference at byte %d)", c.Kind, out2.Len(), firstDiff(out2.Bytes(), b[:need]))
+		}
 	}
 	if c.Reader != "whole" || c.WriteAt >= 0 {
 		rec.NT(fmt.Sprint(c))
